@@ -132,8 +132,28 @@ def run_translator(families):
         return [{"family": "?", "values": {}, "missing": ["translator failed: " + out[-400:]]}]
 
 
+class _BuildLock:
+    """serialises Coq / OCaml builds of concurrently running checks (they share coq/ and build/ocaml/)"""
+    def __enter__(self):
+        import fcntl
+        os.makedirs(BUILD, exist_ok=True)
+        self.f = open(os.path.join(BUILD, ".coq.lock"), "w")
+        fcntl.flock(self.f, fcntl.LOCK_EX)
+        return self
+
+    def __exit__(self, *a):
+        import fcntl
+        fcntl.flock(self.f, fcntl.LOCK_UN)
+        self.f.close()
+
+
 def coq_build(targets, force=(), timeout=2400):
     """full .vo build of the given targets (and their dependencies) through the generated Makefile"""
+    with _BuildLock():
+        return _coq_build(targets, force, timeout)
+
+
+def _coq_build(targets, force=(), timeout=2400):
     for t in force:
         for ext in (".vo", ".glob", ".vos", ".vok"):
             try:
@@ -178,6 +198,11 @@ def theorems_in(props_file):
 # ----------------------------------------------------------------------------------------------
 
 def build_ocaml(prop):
+    with _BuildLock():
+        return _build_ocaml(prop)
+
+
+def _build_ocaml(prop):
     d = os.path.join(BUILD, "ocaml", prop)
     os.makedirs(d, exist_ok=True)
     srcs = [os.path.join(ROOT, "ocaml", "gen", prop, "model.mli"), os.path.join(ROOT, "ocaml", "gen", prop, "model.ml"),
